@@ -78,14 +78,14 @@ def key_c07(ev, clause):
     pooling = [p for p in parts if p.startswith('pooling=')]
     contigs = len(set(f['contig'] for f in ev['frags']))
     bucket = 'one_bucket' if (pooling == ['pooling=0'] or ev['kind'] == 'plain' or (ev['kind'] == 'chic' and ev['radius'] > 0)) else 'hash_buckets'
-    return '%s|%s|%s|%s' % (c, ev['kind'], bucket, 'multi_contig' if contigs > 1 else 'one_contig')
+    return '%s|%s|%s|%s%s' % (c, ev['kind'], bucket, 'multi_contig' if contigs > 1 else 'one_contig', '|reused_iterator' if 'reuse' in parts else '')
 
 
 def what_fn(ev, clause):
     if ev['ev'] == 'sched':
         parts = clause.split(' ')
         sel = {p.split('=')[0]: int(p.split('=')[1]) for p in parts[1:] if '=' in p}
-        run = [r for r in ev['runs'] if r['sched'] == sel.get('sched') and r['pooling'] == sel.get('pooling')]
+        run = [r for r in ev['runs'] if r['sched'] == sel.get('sched') and r['pooling'] == sel.get('pooling') and bool(r.get('reuse')) == ('reuse' in parts)]
         ref = [r for r in ev['runs'] if r['sched'] == -1 and r['pooling'] == sel.get('pooling')]
         return '%s: %s hd=%d radius=%d cache=%d, %d fragments; groups %s vs never-eject %s' % (
             clause, ev['kind'], ev['hd'], ev['radius'], ev['cache'], len(ev['frags']),
